@@ -12,8 +12,8 @@ rundemo() {
   case "$MODE" in
     test) cargo test -p strum_tests --test zz_demo --offline 2>&1 | grep -E "^test result|error(\\[|:)" | head -3 | tr '\n' ' ' ;;
     phf) cargo test -p strum_tests --features test_phf --test zz_demo --offline 2>&1 | grep -E "^test result|error(\\[|:)" | head -3 | tr '\n' ' ' ;;
-    crate) (cd "$S/demo" && sed -i "s#/tmp/seed/wt-[A-Za-z0-9]*#$WT#g" Cargo.toml && if cargo check --offline >/tmp/demo.$$.log 2>&1; then echo "test result: ok. demo crate compiles"; else echo "FAILED: $(grep -E '^error' /tmp/demo.$$.log | head -2 | tr '\n' ' ')"; fi; rm -rf target /tmp/demo.$$.log) ;;
-    script) (cd "$S/demo" && sed -i "s#/tmp/seed/wt-[A-Za-z0-9]*#$WT#g" Cargo.toml && if sh ./demo.sh >/tmp/demo.$$.log 2>&1; then echo "test result: ok. demo.sh exit 0"; else echo "FAILED: demo.sh exit non-zero: $(tail -2 /tmp/demo.$$.log | tr '\n' ' ')"; fi; rm -rf target /tmp/demo.$$.log) ;;
+    crate) (cd "$S/demo" && sed -i "s#/tmp/seed/wt[0-9]*-[A-Za-z0-9]*#$WT#g" Cargo.toml && if cargo check --offline >/tmp/demo.$$.log 2>&1; then echo "test result: ok. demo crate compiles"; else echo "FAILED: $(grep -E '^error' /tmp/demo.$$.log | head -2 | tr '\n' ' ')"; fi; rm -rf target /tmp/demo.$$.log) ;;
+    script) (cd "$S/demo" && sed -i "s#/tmp/seed/wt[0-9]*-[A-Za-z0-9]*#$WT#g" Cargo.toml && [ -f ./demo.sh ] || cp ../demo.sh ./demo.sh; sed -i 's#cd "$here/$crate"#cd "$here"#' ./demo.sh; true) && (cd "$S/demo"  && if sh ./demo.sh >/tmp/demo.$$.log 2>&1; then echo "test result: ok. demo.sh exit 0"; else echo "FAILED: demo.sh exit non-zero: $(tail -2 /tmp/demo.$$.log | tr '\n' ' ')"; fi; rm -rf target /tmp/demo.$$.log) ;;
   esac
 }
 [ -f "$S/demo.rs" ] && cp "$S/demo.rs" strum_tests/tests/zz_demo.rs
